@@ -234,6 +234,12 @@ func (m *model) open(text string) *mpage {
 		}
 		return m.thread(world.Fail)
 	}
+	if c := m.g.CollByID(text); c != nil {
+		if c.Gone {
+			return m.thread(world.Fail)
+		}
+		return &mpage{list: true, items: m.g.RawItems(c), cur: 1}
+	}
 	if n := m.nodeByID(text); n != nil && (n.Gone == "" || n.Gone == "tombstone") {
 		return m.thread(m.g.ViewOf(n))
 	}
@@ -496,6 +502,18 @@ func randomTokens(r *rand.Rand, g *world.Generated, feeds []string, n int, safeO
 			return a.ID
 		case 2:
 			return g.Nodes[r.Intn(len(g.Nodes))].ID
+		case 3:
+			// a timeline or comment section opened by its own address
+			for i := 0; i < 6; i++ {
+				n := g.Nodes[r.Intn(len(g.Nodes))]
+				if n.Outbox != nil {
+					return n.Outbox.ID
+				}
+				if n.Replies != nil {
+					return n.Replies.ID
+				}
+			}
+			return g.Entries[r.Intn(len(g.Entries))].ID
 		default:
 			return g.Entries[r.Intn(len(g.Entries))].ID
 		}
